@@ -57,8 +57,12 @@ def run(ctx):
             req = {"op": "write", "cache": cache, "key": key, "data": ctx.data(data), "algo": algo}
         elif ep == "writer_opts":
             req = {"op": "writer", "cache": cache, "key": key, "opts": opts, "chunks": [ctx.data(data)]}
+            if "time" not in opts and i % 4 == 0:
+                req["pause_before_commit_ms"] = 6
         elif ep == "writer_create":
             req = {"op": "writer", "cache": cache, "key": key, "create": True, "chunks": [ctx.data(data)]}
+            if i % 4 == 0:
+                req["pause_before_commit_ms"] = 6
         else:
             opts["sri"] = ref.sri(algo, data)
             req = {"op": "index_insert", "cache": cache, "key": key, "opts": opts}
@@ -144,6 +148,9 @@ def expected_entry(c):
     o = c["opts"]
     w = c["wresp"]
     win = hist.window(w)
+    if win and ev.is_ok(w) and "commit_w0" in w["ok"]:
+        # the driver noted the wall clock right before calling commit(): the default time is the time of the commit
+        win = (int(w["ok"]["commit_w0"]), win[1])
     sri = o.get("sri") or (w["ok"].get("sri") if ev.is_ok(w) else None)
     size = o.get("size")
     if size is None:
